@@ -273,6 +273,16 @@ class CEmitter:
             return '%s->data' % self.pex(args[0])
         if name in ('vec_size',):
             return '%s->size' % self.pex(args[0])
+        if name == 'vec_copy':
+            et = t[1]
+            vt = self.ctype(t)
+            fn = 'phqv_vec_copy_%s' % cident(tstr(et))
+            self.helpers[fn] = ('/* std::vector copy construction (library contract): fresh storage, same size, equal elements.  Only the element with\n'
+                                '   the ghost index phqv_k is tracked; every other element of the copy is left arbitrary (sound for obligations about element phqv_k). */\n'
+                                'unsigned long phqv_k;\n'
+                                'static %s %s(const %s *src) {\n  %s r;\n  r.size = src->size;\n  r.data = (%s *)__CPROVER_allocate(src->size * sizeof(%s), 0);\n'
+                                '  if (phqv_k < src->size) r.data[phqv_k] = src->data[phqv_k];\n  return r;\n}\n') % (vt, fn, vt, vt, self.ctype(et), self.ctype(et))
+            return '%s(%s)' % (fn, self.ex(args[0]))
         if name == 'vec_elem':
             et = e[1][1]
             vt = self.ctype(('vec', et))
